@@ -103,11 +103,27 @@ pub fn filter_scan_rule() -> Vec<Rewrite> { vec![
 fn is_primary_key_range(expr: &str) -> impl Fn(&mut EGraph, Id, &Subst) -> bool {
     let var = var(expr);
     move |egraph, _, subst| {
-        let Some((column, _)) = &egraph[subst[var]].data.range else {
+        let Some((column, range)) = &egraph[subst[var]].data.range else {
             return false;
         };
+        // The storage layer can only seek by an INT key stored in the first column of the table (see
+        // `DiskRowset::start_rowid` and the row filter of `RowSetIterator`), and it compares the bounds
+        // with the stored keys as `DataValue`s, so the bounds must be INT values as well.
+        let is_int32_bound = |b: &std::ops::Bound<crate::types::DataValue>| {
+            matches!(
+                b,
+                std::ops::Bound::Unbounded
+                    | std::ops::Bound::Included(crate::types::DataValue::Int32(_))
+                    | std::ops::Bound::Excluded(crate::types::DataValue::Int32(_))
+            )
+        };
+        if !is_int32_bound(&range.start) || !is_int32_bound(&range.end) {
+            return false;
+        }
         if let Some(col) = egraph.analysis.catalog.get_column(column) {
             col.is_primary()
+                && column.column_id == 0
+                && col.data_type() == crate::types::DataType::Int32
         } else {
             // handle the case that catalog is not initialized, like in test cases
             false
